@@ -35,7 +35,7 @@ pub fn property() -> Property {
         id: 0,
         name: "compliance_failure_wrt vs reference table",
         quick: 20_000,
-        thorough: 1_000_000,
+        thorough: 10_000_000,
         max_len: 96,
         max_threads: 0,
       },
@@ -43,7 +43,7 @@ pub fn property() -> Property {
         id: 1,
         name: "same verdict after the wire (to/from parameter list, both byte orders)",
         quick: 10_000,
-        thorough: 500_000,
+        thorough: 5_000_000,
         max_len: 96,
         max_threads: 0,
       },
